@@ -13,6 +13,7 @@ mod props;
 mod sched;
 mod selftest;
 mod show;
+mod tyseed;
 mod tables;
 
 use common::*;
@@ -107,7 +108,7 @@ fn main() {
                 writeln!(out, "ORACLE {}", serde_json::to_string(v).unwrap()).unwrap();
             }
         }
-        Some("selftest") => selftest::run(),
+        Some("selftest") => { selftest::run(); selftest::run_ty(); }
         Some("tables") => {
             let s = tables::measure();
             let path = &args[2];
